@@ -119,7 +119,7 @@ NextDataSet ==
        \E setting \in (IF f = "nexus" THEN {"None", "False", "True"} ELSE {"None"}) :
         /\ \A k \in 2..nc : comps[k].title = <<>>
         /\ \A k \in 1..nc : comps[k].kind = "TREES" => ~comps[k].subsets /\ ~comps[k].neg
-        /\ \A k \in 1..nc : comps[k].subsets => comps[k].title = <<>> /\ ~comps[k].neg     \* a concatenated (discrete) alignment
+        /\ \A k \in 1..nc : comps[k].subsets => comps[k].title = <<>> /\ ~comps[k].neg /\ nns <= 2   \* a concatenated (discrete) alignment
         /\ \A k \in 1..nc : comps[k].neg => \E j \in 1..(k - 1) : comps[j].subsets            \* negative values only matter after a SETS block
         /\ c' = [kind |-> "dataset", f |-> f, setting |-> setting,
               ds |-> [nss |-> [i \in 1..nns |-> [title |-> titles[i], labels |-> NsLabels(i)]], comps |-> comps]]
